@@ -2,6 +2,7 @@ import Req.Driver.Proto
 import Req.Driver.WireUtil
 import Req.H1.DumpWrite
 import Req.Client.DumpSites
+import Req.Client.DumpExtra
 /-! Driver lanes of C13, part 2: the per-stack dump call sites (write programs). -/
 namespace Req.Driver.L.C13W
 open Req.Proto Req.Driver
@@ -142,8 +143,76 @@ def laneG3Body : List String → String
     | _, _ => "bad-op"
   | _ => "bad-op"
 
+/-! #### failing sink, Response.Dump() after retries -/
+
+open Req.Client.Dump in
+/-- `c13wraps <limit> <writes> <k>`: the wrapper over a connection writer accepting `limit` bytes
+and a dump sink failing from its (k+1)-th write on → the caller's results, what the connection
+writer got, what the sink was offered (write by write). -/
+def laneWrapS : List String → String
+  | [limit, writes, k] =>
+    match limit.toNat?, decodeList writes, k.toNat? with
+    | some l, some ps, some k =>
+      let (rs, ((_, got), (_, seen))) := (wrapWriterSink limitedWriter (failingSink k)).runAll ((l, []), (0, [])) ps
+      (if rs.isEmpty then "-" else ",".intercalate (rs.map fun r => toString r.n ++ ":" ++ toString r.err)) ++
+        " got=" ++ encodeHex got ++ " seen=" ++ encodeList seen
+    | _, _, _ => "bad-op"
+  | _ => "bad-op"
+
+open Req.Client.Dump in
+def optW (n : Nat) : Option Writer := if n = 0 then none else some n
+
+open Req.Client.Dump in
+def parseOpts (s : String) : Option (Option Opts) :=
+  if s == "-" then some none else
+  match decodeNatList s with
+  | some [o, qo, ro, qho, qbo, rho, rbo, qh, qb, rh, rb, a] =>
+    some (some { output := optW o, requestOutput := optW qo, responseOutput := optW ro,
+                 requestHeaderOutput := optW qho, requestBodyOutput := optW qbo,
+                 responseHeaderOutput := optW rho, responseBodyOutput := optW rbo,
+                 requestHeader := qh != 0, requestBody := qb != 0, responseHeader := rh != 0,
+                 responseBody := rb != 0, async := a != 0 })
+  | _ => none
+
+open Req.Client.Dump in
+def mkExchanges : List Bytes → Option (List Exchange)
+  | [] => some []
+  | a :: b :: c :: d :: rest => (mkExchanges rest).map (⟨a, b, c, d⟩ :: ·)
+  | _ => none
+
+/-- cut a list into consecutive groups of the given sizes. -/
+def groupBy {α : Type} : List Nat → List α → List (List α)
+  | [], _ => []
+  | n :: ns, l => l.take n :: groupBy ns (l.drop n)
+
+def dedupSorted (l : List Nat) : List Nat :=
+  (l.foldl (fun acc x => if acc.contains x then acc else x :: acc) []).reverse.mergeSort
+
+open Req.Client.Dump in
+/-- `c13expr <client opts|-> <request opts|-> <buffer writer> <exchanges per retry attempt> <parts: 4
+per exchange>` → per writer the bytes it must hold after the call (`dumpAfterRetries`). -/
+def laneExpR : List String → String
+  | [c, r, buf, sizes, parts] =>
+    match parseOpts c, parseOpts r, buf.toNat?, decodeNatList sizes, decodeList parts with
+    | some co, some ro, some buf, some sizes, some ps =>
+      match mkExchanges ps with
+      | none => "bad-op"
+      | some es =>
+        if sizes.sum != es.length then "bad-op" else
+        let ds := getDumpers (co.map newDumper) (ro.map newDumper)
+        let attempts := groupBy sizes es
+        let ws := dedupSorted (ds.flatMap fun o => Part.all.map o.resolve)
+        let body := ws.filterMap fun w =>
+          let b := dumpAfterRetries ds attempts buf w
+          if b.isEmpty then none else some ("w" ++ toString w ++ "=" ++ encodeHex b)
+        " ".intercalate body ++ " chan=-"
+    | _, _, _, _, _ => "bad-op"
+  | _ => "bad-op"
+
 def lanes : List (String × (List String → String)) := [
   ("c13h1w", laneH1W),
+  ("c13wraps", laneWrapS),
+  ("c13expr", laneExpR),
   ("c13ghead", laneGHead),
   ("c13gdata", laneGData),
   ("c13gresp3", laneGResp3),
